@@ -211,9 +211,15 @@ theorem saveData_inv {β : Type} (src : DKey → β) (ofIt : Nat → β) (R rl :
       · simp [truth]
     · simp [truth]
 
-theorem stepComp_inv {β : Type} (src : DKey → β) (ofIt : Nat → β) (R rl : Nat) (its tmpIts : List Nat)
-    (st st' : State β) (av : DName) (hav : av ≠ DName.it) (hI : Inv src ofIt st.store)
-    (h : stepComp src ofIt R rl its tmpIts st av = some st') : Inv src ofIt st'.store := by
+/-- a property of caches preserved by every `save_data` the read path performs -/
+def SavePres {β : Type} (src : DKey → β) (ofIt : Nat → β) (P : Store β → Prop) : Prop :=
+  ∀ (R rl : Nat) (tmpIts : List Nat) (av : DName), av ≠ DName.it → ∀ (itsSave : List Nat) (store store' : Store β),
+    P store → saveData ofIt store R rl tmpIts (fetch src R rl tmpIts) av itsSave = some store' → P store'
+
+theorem stepComp_pres {β : Type} (src : DKey → β) (ofIt : Nat → β) (P : Store β → Prop)
+    (hP : SavePres src ofIt P) (R rl : Nat) (its tmpIts : List Nat)
+    (st st' : State β) (av : DName) (hav : av ≠ DName.it) (hI : P st.store)
+    (h : stepComp src ofIt R rl its tmpIts st av = some st') : P st'.store := by
   unfold stepComp at h
   simp only at h
   generalize (if av = DName.t then (getMiss st.missing av).filter (fun i => !(its.contains i))
@@ -227,20 +233,21 @@ theorem stepComp_inv {β : Type} (src : DKey → β) (ofIt : Nat → β) (R rl :
     | some store' =>
       simp only [hs] at h
       cases h
-      exact saveData_inv src ofIt R rl tmpIts av hav _ _ _ hI hs
+      exact hP R rl tmpIts av hav _ _ _ hI hs
 
-theorem stepVar_inv {β : Type} (src : DKey → β) (ofIt : Nat → β) (R rl : Nat) (its : List Nat)
-    (st st' : State β) (v : List Nat) (hI : Inv src ofIt st.store)
-    (h : stepVar src ofIt R rl its st v = some st') : Inv src ofIt st'.store := by
+theorem stepVar_pres {β : Type} (src : DKey → β) (ofIt : Nat → β) (P : Store β → Prop)
+    (hP : SavePres src ofIt P) (R rl : Nat) (its : List Nat)
+    (st st' : State β) (v : List Nat) (hI : P st.store)
+    (h : stepVar src ofIt R rl its st v = some st') : P st'.store := by
   unfold stepVar at h
   simp only at h
   split at h
   · cases h; exact hI
   · rename_i hne
     -- every name processed is a variable or `t`
-    have key : ∀ (names : List DName), (∀ n ∈ names, n ≠ DName.it) → ∀ (s s' : State β), Inv src ofIt s.store →
+    have key : ∀ (names : List DName), (∀ n ∈ names, n ≠ DName.it) → ∀ (s s' : State β), P s.store →
         names.foldlM (stepComp src ofIt R rl its (sortNat ((v.map DName.var).flatMap
-          fun av => getMiss st.missing av).eraseDups)) s = some s' → Inv src ofIt s'.store := by
+          fun av => getMiss st.missing av).eraseDups)) s = some s' → P s'.store := by
       intro names
       induction names with
       | nil => intro _ s s' hs h; simp at h; exact h ▸ hs
@@ -253,7 +260,7 @@ theorem stepVar_inv {β : Type} (src : DKey → β) (ofIt : Nat → β) (R rl : 
         | some s1 =>
           simp only [hx] at h
           exact ih (fun m hm => hn m (List.mem_cons_of_mem _ hm)) s1 s'
-            (stepComp_inv src ofIt R rl its _ s s1 n (hn n (List.mem_cons_self ..)) hs hx) h
+            (stepComp_pres src ofIt P hP R rl its _ s s1 n (hn n (List.mem_cons_self ..)) hs hx) h
     refine key _ ?_ st st' hI h
     intro n hn
     rcases List.mem_append.mp hn with hn | hn
@@ -261,24 +268,26 @@ theorem stepVar_inv {β : Type} (src : DKey → β) (ofIt : Nat → β) (R rl : 
     · simp at hn; subst hn; simp
 
 
-theorem readRestart_inv {β : Type} (src : DKey → β) (ofIt : Nat → β) (grouped : Bool) (req : List (List Nat))
+theorem readRestart_pres {β : Type} (src : DKey → β) (ofIt : Nat → β) (P : Store β → Prop)
+    (hP : SavePres src ofIt P) (grouped : Bool) (req : List (List Nat))
     (store : Store β) (R rl : Nat) (its : List Nat) (cols : Dict DName (List (Option β))) (store' : Store β)
-    (hI : Inv src ofIt store) (h : readRestart src ofIt grouped req store R rl its = some (cols, store')) :
-    Inv src ofIt store' := by
+    (hI : P store) (h : readRestart src ofIt grouped req store R rl its = some (cols, store')) :
+    P store' := by
   unfold readRestart at h
   simp only at h
   split at h
   · cases h
   · rename_i st hst
     cases h
-    exact foldlM_inv (fun s : State β => Inv src ofIt s.store) _
-      (fun s v s' hs hstep => stepVar_inv src ofIt R rl its s s' v hs hstep) _ _ st hI hst
+    exact foldlM_inv (fun s : State β => P s.store) _
+      (fun s v s' hs hstep => stepVar_pres src ofIt P hP R rl its s s' v hs hstep) _ _ st hI hst
 
-theorem readAll_inv {β : Type} (src : DKey → β) (ofIt : Nat → β) (grouped split : Bool) (req : List (List Nat))
+theorem readAll_pres {β : Type} (src : DKey → β) (ofIt : Nat → β) (P : Store β → Prop)
+    (hP : SavePres src ofIt P) (grouped split : Bool) (req : List (List Nat))
     (rl : Nat) (todo : List (Nat × List Nat)) (store : Store β)
     (out : List (Nat × List Nat × Dict DName (List (Option β)))) (store' : Store β)
-    (hI : Inv src ofIt store) (h : readAll src ofIt grouped split req rl todo store = some (out, store')) :
-    Inv src ofIt store' := by
+    (hI : P store) (h : readAll src ofIt grouped split req rl todo store = some (out, store')) :
+    P store' := by
   induction todo generalizing store out store' with
   | nil => simp [readAll] at h; exact h.2 ▸ hI
   | cons rt rest ih =>
@@ -293,19 +302,18 @@ theorem readAll_inv {β : Type} (src : DKey → β) (ofIt : Nat → β) (grouped
         · cases h
         · rename_i out' store2 hrest
           cases h
-          have h1 : Inv src ofIt store1 := by
+          have h1 : P store1 := by
             cases split with
-            | true => simp only [if_true] at hr; exact readRestart_inv src ofIt grouped req store R rl td cols store1 hI hr
+            | true => simp only [if_true] at hr; exact readRestart_pres src ofIt P hP grouped req store R rl td cols store1 hI hr
             | false => simp at hr; exact hr.2 ▸ hI
           exact ih store1 out' store' h1 hrest
 
-/-- **T1 (one call)**: a call that returns leaves a cache whose every dataset
-equals the source at the key it is filed under -/
-theorem readData_inv {β : Type} (src : DKey → β) (ofIt : Nat → β) (avail : List Avail) (grouped : Bool)
+theorem readData_pres {β : Type} (src : DKey → β) (ofIt : Nat → β) (P : Store β → Prop)
+    (hP : SavePres src ofIt P) (avail : List Avail) (grouped : Bool)
     (req : List (List Nat)) (its : List Nat) (rl : Nat) (restart : Option Nat) (split : Bool)
-    (store : Store β) (rows : List (Row β)) (store' : Store β) (hI : Inv src ofIt store)
+    (store : Store β) (rows : List (Row β)) (store' : Store β) (hI : P store)
     (h : readData src ofIt avail grouped req its rl restart split store = some (rows, store')) :
-    Inv src ofIt store' := by
+    P store' := by
   unfold readData at h
   simp only at h
   split at h
@@ -313,7 +321,25 @@ theorem readData_inv {β : Type} (src : DKey → β) (ofIt : Nat → β) (avail 
   · cases h
   · rename_i datar store1 _ hr
     cases h
-    exact readAll_inv src ofIt grouped split req rl _ store datar store' hI hr
+    exact readAll_pres src ofIt P hP grouped split req rl _ store datar store' hI hr
+
+theorem savePres_inv {β : Type} (src : DKey → β) (ofIt : Nat → β) : SavePres src ofIt (Inv src ofIt) :=
+  fun R rl tmpIts av hav itsSave store store' hI h => saveData_inv src ofIt R rl tmpIts av hav itsSave store store' hI h
+
+theorem readRestart_inv {β : Type} (src : DKey → β) (ofIt : Nat → β) (grouped : Bool) (req : List (List Nat))
+    (store : Store β) (R rl : Nat) (its : List Nat) (cols : Dict DName (List (Option β))) (store' : Store β)
+    (hI : Inv src ofIt store) (h : readRestart src ofIt grouped req store R rl its = some (cols, store')) :
+    Inv src ofIt store' :=
+  readRestart_pres src ofIt _ (savePres_inv src ofIt) grouped req store R rl its cols store' hI h
+
+/-- **T1 (one call)**: a call that returns leaves a cache whose every dataset
+equals the source at the key it is filed under -/
+theorem readData_inv {β : Type} (src : DKey → β) (ofIt : Nat → β) (avail : List Avail) (grouped : Bool)
+    (req : List (List Nat)) (its : List Nat) (rl : Nat) (restart : Option Nat) (split : Bool)
+    (store : Store β) (rows : List (Row β)) (store' : Store β) (hI : Inv src ofIt store)
+    (h : readData src ofIt avail grouped req its rl restart split store = some (rows, store')) :
+    Inv src ofIt store' :=
+  readData_pres src ofIt _ (savePres_inv src ofIt) avail grouped req its rl restart split store rows store' hI h
 
 /-- one `read_data` call of a history -/
 structure Call where
@@ -360,5 +386,697 @@ theorem history_inv {β : Type} (src : DKey → β) (ofIt : Nat → β) (hist : 
 theorem inv_empty {β : Type} (src : DKey → β) (ofIt : Nat → β) : Inv src ofIt ([] : Store β) := by
   intro kv h; cases h
 
+
+/-! ### more dictionary facts -/
+
+theorem set_keys {κ β : Type} [DecidableEq κ] (d : Dict κ β) (k : κ) (v : β) :
+    (d.set k v).map Prod.fst = if k ∈ d.map Prod.fst then d.map Prod.fst else d.map Prod.fst ++ [k] := by
+  induction d with
+  | nil => simp [Dict.set]
+  | cons e rest ih =>
+    obtain ⟨k', v'⟩ := e
+    simp only [Dict.set]
+    by_cases h : k' = k
+    · subst h; simp
+    · have h' : ¬ k = k' := fun e => h e.symm
+      simp only [h, if_false, List.map_cons, ih, List.mem_cons, h', false_or]
+      split <;> simp
+
+theorem mem_keys_set {κ β : Type} [DecidableEq κ] (d : Dict κ β) (k k' : κ) (v : β) :
+    k' ∈ (d.set k v).map Prod.fst ↔ k' = k ∨ k' ∈ d.map Prod.fst := by
+  rw [set_keys]
+  split
+  · rename_i h
+    constructor
+    · exact Or.inr
+    · rintro (rfl | h') <;> assumption
+  · simp [or_comm]
+
+theorem set_keys_nodup {κ β : Type} [DecidableEq κ] (d : Dict κ β) (k : κ) (v : β)
+    (h : (d.map Prod.fst).Nodup) : ((d.set k v).map Prod.fst).Nodup := by
+  rw [set_keys]
+  split
+  · exact h
+  · rename_i hk
+    exact List.nodup_append.mpr ⟨h, by simp, by
+      intro a ha b hb; simp at hb; subst hb; intro e; subst e; exact hk ha⟩
+
+theorem get?_none_iff {κ β : Type} [DecidableEq κ] (d : Dict κ β) (k : κ) :
+    d.get? k = none ↔ k ∉ d.map Prod.fst := by
+  induction d with
+  | nil => simp [Dict.get?]
+  | cons e rest ih =>
+    obtain ⟨k', v'⟩ := e
+    simp only [Dict.get?, List.map_cons, List.mem_cons, not_or]
+    split
+    · rename_i h; subst h; simp
+    · rename_i h
+      rw [ih]
+      constructor
+      · intro h2; exact ⟨fun e => h e.symm, h2⟩
+      · intro h2; exact h2.2
+
+theorem foldl_set_get {κ γ : Type} [DecidableEq κ] (f : κ → γ) (names : List κ) (d0 : Dict κ γ) (n : κ) :
+    (names.foldl (fun d m => d.set m (f m)) d0).get? n = if n ∈ names then some (f n) else d0.get? n := by
+  induction names generalizing d0 with
+  | nil => simp
+  | cons m ms ih =>
+    simp only [List.foldl_cons, ih, List.mem_cons]
+    by_cases h1 : n ∈ ms
+    · simp [h1]
+    · simp only [h1, if_false, or_false]
+      by_cases h2 : n = m
+      · subst h2; simp [get?_set_self]
+      · simp [h2, get?_set_ne _ _ _ _ h2]
+
+theorem foldl_set_keys {κ γ : Type} [DecidableEq κ] (f : κ → γ) (names : List κ) (d0 : Dict κ γ)
+    (h0 : (d0.map Prod.fst).Nodup) :
+    ((names.foldl (fun d m => d.set m (f m)) d0).map Prod.fst).Nodup ∧
+      ∀ n ∈ (names.foldl (fun d m => d.set m (f m)) d0).map Prod.fst, n ∈ names ∨ n ∈ d0.map Prod.fst := by
+  induction names generalizing d0 with
+  | nil => exact ⟨h0, fun n h => Or.inr h⟩
+  | cons m ms ih =>
+    simp only [List.foldl_cons]
+    obtain ⟨h1, h2⟩ := ih (d0.set m (f m)) (set_keys_nodup d0 m (f m) h0)
+    refine ⟨h1, fun n hn => ?_⟩
+    rcases h2 n hn with h | h
+    · exact Or.inl (List.mem_cons_of_mem _ h)
+    · rcases (mem_keys_set d0 m n (f m)).mp h with rfl | h
+      · exact Or.inl (List.mem_cons_self ..)
+      · exact Or.inr h
+
+theorem getD_set_self {κ γ : Type} [DecidableEq κ] (d : Dict κ γ) (k : κ) (v dflt : γ) :
+    ((d.set k v).get? k).getD dflt = v := by simp [get?_set_self]
+
+/-! ### columns of one restart -/
+
+section cols
+variable {β : Type} (src : DKey → β) (ofIt : Nat → β) (R rl : Nat) (its : List Nat)
+
+/-- every entry of column `n` is the source at its iteration -/
+def CellOK (col : Dict DName (List (Option β))) (n : DName) : Prop :=
+  ∀ (idx i : Nat), its[idx]? = some i → (getCol col n)[idx]? = some (some (src ⟨R, i, n, rl⟩))
+
+/-- every entry of column `n` is the source, or None and recorded as missing -/
+def CellGood (col : Dict DName (List (Option β))) (miss : Dict DName (List Nat)) (n : DName) : Prop :=
+  ∀ (idx i : Nat), its[idx]? = some i →
+    (getCol col n)[idx]? = some (some (src ⟨R, i, n, rl⟩)) ∨
+      ((getCol col n)[idx]? = some none ∧ i ∈ getMiss miss n)
+
+theorem fillCol_ok (colv : List (Option β)) (miss tmpIts : List Nat) (n : DName)
+    (hgood : ∀ (idx i : Nat), its[idx]? = some i →
+      colv[idx]? = some (some (src ⟨R, i, n, rl⟩)) ∨ (colv[idx]? = some none ∧ i ∈ miss))
+    (hsub : ∀ i ∈ miss, i ∈ tmpIts) :
+    ∀ (idx i : Nat), its[idx]? = some i →
+      (fillCol its colv miss tmpIts (fetch src R rl tmpIts n))[idx]? = some (some (src ⟨R, i, n, rl⟩)) := by
+  intro idx i hi
+  unfold fillCol
+  rw [List.getElem?_map]
+  rcases hgood idx i hi with hc | ⟨hc, hm⟩
+  · have hz : (its.zip colv)[idx]? = some (i, some (src ⟨R, i, n, rl⟩)) :=
+      List.getElem?_zip_eq_some.mpr ⟨hi, hc⟩
+    rw [hz]
+    simp only [Option.map_some]
+    by_cases hm : i ∈ miss
+    · rw [if_pos hm, fetch_get src R rl tmpIts n _ i (nearest_exact_lemma tmpIts i (hsub i hm))]
+    · rw [if_neg hm]
+  · have hz : (its.zip colv)[idx]? = some (i, none) := List.getElem?_zip_eq_some.mpr ⟨hi, hc⟩
+    rw [hz]
+    simp only [Option.map_some]
+    rw [if_pos hm, fetch_get src R rl tmpIts n _ i (nearest_exact_lemma tmpIts i (hsub i hm))]
+
+theorem getCol_set_self (col : Dict DName (List (Option β))) (n : DName) (c : List (Option β)) :
+    getCol (col.set n c) n = c := by simp [getCol, get?_set_self]
+theorem getCol_set_ne (col : Dict DName (List (Option β))) (n m : DName) (c : List (Option β)) (h : m ≠ n) :
+    getCol (col.set n c) m = getCol col m := by simp [getCol, get?_set_ne _ _ _ _ h]
+theorem getMiss_set_self (ms : Dict DName (List Nat)) (n : DName) (c : List Nat) :
+    getMiss (ms.set n c) n = c := by simp [getMiss, get?_set_self]
+theorem getMiss_set_ne (ms : Dict DName (List Nat)) (n m : DName) (c : List Nat) (h : m ≠ n) :
+    getMiss (ms.set n c) m = getMiss ms m := by simp [getMiss, get?_set_ne _ _ _ _ h]
+
+theorem stepComp_eq (tmpIts : List Nat) (st st' : State β) (av : DName)
+    (h : stepComp src ofIt R rl its tmpIts st av = some st') :
+    st'.col = st.col.set av (fillCol its (getCol st.col av) (getMiss st.missing av) tmpIts
+        (fetch src R rl tmpIts av)) ∧
+    st'.missing = st.missing.set av (if av = DName.t then
+        (getMiss st.missing av).filter (fun i => !(its.contains i)) else getMiss st.missing av) := by
+  unfold stepComp at h
+  simp only at h
+  split at h
+  · cases h
+  · cases h; exact ⟨rfl, rfl⟩
+
+/-- the invariant of the loops over the variables and their components -/
+structure J (names : List DName) (m0 : Dict DName (List Nat)) (s : State β) : Prop where
+  good : ∀ n ∈ names, CellGood src R rl its s.col s.missing n
+  mvar : ∀ v, getMiss s.missing (DName.var v) = getMiss m0 (DName.var v)
+  tsub : ∀ i ∈ getMiss s.missing DName.t, ∀ v, DName.var v ∈ names → i ∈ getMiss m0 (DName.var v)
+  nodup : (s.col.map Prod.fst).Nodup
+  keys : ∀ n ∈ s.col.map Prod.fst, n ∈ names
+
+theorem stepComp_J (names : List DName) (m0 : Dict DName (List Nat)) (tmpIts : List Nat) (s s' : State β)
+    (av : DName) (hJ : J src R rl its names m0 s) (hav : av ∈ names)
+    (hsub : ∀ i ∈ getMiss s.missing av, i ∈ tmpIts)
+    (h : stepComp src ofIt R rl its tmpIts s av = some s') :
+    J src R rl its names m0 s' ∧ CellOK src R rl its s'.col av ∧
+      (∀ n, CellOK src R rl its s.col n → CellOK src R rl its s'.col n) := by
+  obtain ⟨hc, hm⟩ := stepComp_eq src ofIt R rl its tmpIts s s' av h
+  have hok : CellOK src R rl its s'.col av := by
+    intro idx i hi
+    rw [hc, getCol_set_self]
+    exact fillCol_ok src R rl its _ _ tmpIts av (hJ.good av hav) hsub idx i hi
+  have hstable : ∀ n, CellOK src R rl its s.col n → CellOK src R rl its s'.col n := by
+    intro n hn
+    by_cases hna : n = av
+    · subst hna; exact hok
+    · intro idx i hi
+      rw [hc, getCol_set_ne _ _ _ _ hna]
+      exact hn idx i hi
+  refine ⟨⟨?_, ?_, ?_, ?_, ?_⟩, hok, hstable⟩
+  · intro n hn idx i hi
+    by_cases hna : n = av
+    · subst hna; exact Or.inl (hok idx i hi)
+    · rw [hc, hm, getCol_set_ne _ _ _ _ hna, getMiss_set_ne _ _ _ _ hna]
+      exact hJ.good n hn idx i hi
+  · intro v
+    by_cases hna : DName.var v = av
+    · subst hna
+      rw [hm, getMiss_set_self]
+      simp only [reduceCtorEq, if_false]
+      exact hJ.mvar v
+    · rw [hm, getMiss_set_ne _ _ _ _ hna]; exact hJ.mvar v
+  · intro i hi v hv
+    by_cases hna : DName.t = av
+    · subst hna
+      rw [hm, getMiss_set_self] at hi
+      simp only [if_true] at hi
+      exact hJ.tsub i (List.mem_filter.mp hi).1 v hv
+    · rw [hm, getMiss_set_ne _ _ _ _ hna] at hi
+      exact hJ.tsub i hi v hv
+  · rw [hc]; exact set_keys_nodup _ _ _ hJ.nodup
+  · intro n hn
+    rw [hc] at hn
+    rcases (mem_keys_set _ _ _ _).mp hn with rfl | hn
+    · exact hav
+    · exact hJ.keys n hn
+
+theorem foldlM_prefix {σ γ : Type} (P : List γ → σ → Prop) (f : σ → γ → Option σ) (l : List γ)
+    (hstep : ∀ pre x s s1, x ∈ l → P pre s → f s x = some s1 → P (pre ++ [x]) s1) :
+    ∀ (pre : List γ) (s s' : σ), (∀ x ∈ l, x ∈ l) → P pre s → l.foldlM f s = some s' → P (pre ++ l) s' := by
+  induction l with
+  | nil =>
+    intro pre s s' _ hs h
+    simp at h
+    subst h
+    simpa using hs
+  | cons x xs ih =>
+    intro pre s s' _ hs h
+    simp only [List.foldlM_cons] at h
+    cases hx : f s x with
+    | none => simp [hx] at h
+    | some s1 =>
+      simp only [hx] at h
+      have := ih (fun pre' y t t1 hy => hstep pre' y t t1 (List.mem_cons_of_mem _ hy)) (pre ++ [x]) s1 s'
+        (fun _ h => h) (hstep pre x s s1 (List.mem_cons_self ..) hs hx) h
+      simpa [List.append_assoc] using this
+
+theorem eraseDups_eq_nil {γ : Type} [BEq γ] [LawfulBEq γ] (l : List γ) (h : l.eraseDups = []) : l = [] := by
+  cases l with
+  | nil => rfl
+  | cons a as =>
+    have : a ∈ (a :: as).eraseDups := List.mem_eraseDups.mpr (List.mem_cons_self ..)
+    rw [h] at this; cases this
+
+theorem stepVar_J (names : List DName) (m0 : Dict DName (List Nat)) (s s' : State β) (v : List Nat)
+    (hJ : J src R rl its names m0 s) (hv : ∀ c ∈ v, DName.var c ∈ names) (ht : DName.t ∈ names)
+    (h : stepVar src ofIt R rl its s v = some s') :
+    J src R rl its names m0 s' ∧ (∀ c ∈ v, CellOK src R rl its s'.col (DName.var c)) ∧
+      (∀ n, CellOK src R rl its s.col n → CellOK src R rl its s'.col n) ∧
+      (v ≠ [] → CellOK src R rl its s'.col DName.t) := by
+  unfold stepVar at h
+  simp only at h
+  split at h
+  · -- nothing is missing for this variable
+    rename_i hnil
+    cases h
+    have hflat := eraseDups_eq_nil _ hnil
+    have hmiss : ∀ c ∈ v, getMiss s.missing (DName.var c) = [] := by
+      intro c hc
+      have : ∀ x, x ∉ getMiss s.missing (DName.var c) := by
+        intro x hx
+        have : x ∈ (v.map DName.var).flatMap fun av => getMiss s.missing av :=
+          List.mem_flatMap.mpr ⟨DName.var c, List.mem_map.mpr ⟨c, hc, rfl⟩, hx⟩
+        rw [hflat] at this; cases this
+      exact List.eq_nil_iff_forall_not_mem.mpr this
+    refine ⟨hJ, ?_, fun n hn => hn, ?_⟩
+    · intro c hc idx i hi
+      rcases hJ.good _ (hv c hc) idx i hi with h1 | ⟨_, h2⟩
+      · exact h1
+      · rw [hmiss c hc] at h2; cases h2
+    · intro hne idx i hi
+      obtain ⟨c0, hc0⟩ := List.exists_mem_of_ne_nil v hne
+      rcases hJ.good _ ht idx i hi with h1 | ⟨_, h2⟩
+      · exact h1
+      · have := hJ.tsub i h2 c0 (hv c0 hc0)
+        rw [← hJ.mvar c0, hmiss c0 hc0] at this; cases this
+  · rename_i hne
+    -- something is missing: every component and `t` is (re)filled from the source
+    have hvne : v ≠ [] := by
+      intro e; subst e; exact hne (by simp)
+    obtain ⟨c0, hc0⟩ := List.exists_mem_of_ne_nil v hvne
+    have hin : ∀ c ∈ v, ∀ i ∈ getMiss s.missing (DName.var c),
+        i ∈ sortNat ((v.map DName.var).flatMap fun av => getMiss s.missing av).eraseDups := by
+      intro c hc i hi
+      rw [mem_sortNat, List.mem_eraseDups]
+      exact List.mem_flatMap.mpr ⟨DName.var c, List.mem_map.mpr ⟨c, hc, rfl⟩, hi⟩
+    have key := foldlM_prefix
+      (fun (pre : List DName) (t : State β) => J src R rl its names m0 t ∧
+        (∀ n ∈ pre, CellOK src R rl its t.col n) ∧ (∀ n, CellOK src R rl its s.col n → CellOK src R rl its t.col n))
+      (stepComp src ofIt R rl its (sortNat ((v.map DName.var).flatMap fun av => getMiss s.missing av).eraseDups))
+      (v.map DName.var ++ [DName.t])
+      (by
+        intro pre x t t1 hx hP hstep
+        obtain ⟨hJt, hpre, hstab⟩ := hP
+        have hxn : x ∈ names := by
+          rcases List.mem_append.mp hx with hx | hx
+          · obtain ⟨c, hc, rfl⟩ := List.mem_map.mp hx; exact hv c hc
+          · simp at hx; subst hx; exact ht
+        have hsub : ∀ i ∈ getMiss t.missing x,
+            i ∈ sortNat ((v.map DName.var).flatMap fun av => getMiss s.missing av).eraseDups := by
+          intro i hi
+          rcases List.mem_append.mp hx with hx | hx
+          · obtain ⟨c, hc, rfl⟩ := List.mem_map.mp hx
+            rw [hJt.mvar c, ← hJ.mvar c] at hi
+            exact hin c hc i hi
+          · simp at hx; subst hx
+            have := hJt.tsub i hi c0 (hv c0 hc0)
+            rw [← hJ.mvar c0] at this
+            exact hin c0 hc0 i this
+        obtain ⟨h1, h2, h3⟩ := stepComp_J src ofIt R rl its names m0 _ t t1 x hJt hxn hsub hstep
+        refine ⟨h1, ?_, fun n hn => h3 n (hstab n hn)⟩
+        intro n hn
+        rcases List.mem_append.mp hn with hn | hn
+        · exact h3 n (hpre n hn)
+        · simp at hn; subst hn; exact h2)
+      [] s s' (fun _ h => h) ⟨hJ, by simp, fun n hn => hn⟩ h
+    obtain ⟨k1, k2, k3⟩ := key
+    refine ⟨k1, ?_, k3, ?_⟩
+    · intro c hc
+      exact k2 _ (List.mem_append.mpr (Or.inr (List.mem_append.mpr (Or.inl (List.mem_map.mpr ⟨c, hc, rfl⟩)))))
+    · intro _
+      exact k2 _ (List.mem_append.mpr (Or.inr (List.mem_append.mpr (Or.inr (List.mem_singleton.mpr rfl)))))
+
+/-- a cache file that has a variable at some level also has the time at that level -/
+def StoreT (store : Store β) : Prop :=
+  ∀ k ∈ store.map Prod.fst, ∀ v, k.name = DName.var v →
+    (⟨k.restart, k.it, DName.t, k.rl⟩ : DKey) ∈ store.map Prod.fst
+
+theorem readCache_col (store : Store β) (names : List DName) (n : DName) (hn : n ∈ names) :
+    getCol (readCache store R rl its names) n = its.map fun i => store.get? ⟨R, i, n, rl⟩ := by
+  simp [getCol, readCache, foldl_set_get, hn]
+
+theorem initMissing_get (cols : Dict DName (List (Option β))) (names : List DName) (n : DName) (hn : n ∈ names) :
+    getMiss (initMissing its cols names) n = missingOf its (getCol cols n) := by
+  simp [getMiss, initMissing, foldl_set_get, hn]
+
+theorem mem_missingOf (col : List (Option β)) (i : Nat) :
+    i ∈ missingOf its col ↔ ∃ idx : Nat, its[idx]? = some i ∧ col[idx]? = some none := by
+  unfold missingOf
+  rw [mem_sortNat, List.mem_eraseDups, List.mem_filterMap]
+  constructor
+  · rintro ⟨⟨j, c⟩, hp, hsome⟩
+    obtain ⟨idx, hidx⟩ := List.mem_iff_getElem?.mp hp
+    obtain ⟨h1, h2⟩ := List.getElem?_zip_eq_some.mp hidx
+    simp only at h1 h2 hsome
+    cases c with
+    | none => simp at hsome; subst hsome; exact ⟨idx, h1, h2⟩
+    | some x => simp at hsome
+  · rintro ⟨idx, h1, h2⟩
+    exact ⟨(i, none), List.mem_iff_getElem?.mpr ⟨idx, List.getElem?_zip_eq_some.mpr ⟨h1, h2⟩⟩, by simp⟩
+
+theorem readRestart_cells (grouped : Bool) (req : List (List Nat)) (store : Store β)
+    (cols : Dict DName (List (Option β))) (store' : Store β)
+    (hI : Inv src ofIt store) (hT : StoreT store) (hreq : req.flatten ≠ [])
+    (h : readRestart src ofIt grouped req store R rl its = some (cols, store')) :
+    (∀ n ∈ req.flatten.map DName.var ++ [DName.t], CellOK src R rl its cols n) ∧
+      (cols.map Prod.fst).Nodup ∧ ∀ n ∈ cols.map Prod.fst, n ∈ req.flatten.map DName.var ++ [DName.t] := by
+  unfold readRestart at h
+  simp only at h
+  split at h
+  · cases h
+  · rename_i st hst
+    cases h
+    generalize hnames : req.flatten.map DName.var ++ [DName.t] = names at hst ⊢
+    have hnoit : ∀ n ∈ names, n ≠ DName.it := by
+      intro n hn; rw [← hnames] at hn
+      rcases List.mem_append.mp hn with hn | hn
+      · obtain ⟨c, _, rfl⟩ := List.mem_map.mp hn; simp
+      · simp at hn; subst hn; simp
+    have htn : DName.t ∈ names := by rw [← hnames]; simp
+    have hvn : ∀ c ∈ req.flatten, DName.var c ∈ names := by
+      intro c hc; rw [← hnames]; exact List.mem_append.mpr (Or.inl (List.mem_map.mpr ⟨c, hc, rfl⟩))
+    -- the invariant holds initially
+    have hcell : ∀ n ∈ names, ∀ (idx i : Nat), its[idx]? = some i →
+        (getCol (readCache store R rl its names) n)[idx]? = some (store.get? ⟨R, i, n, rl⟩) := by
+      intro n hn idx i hi
+      rw [readCache_col R rl its store names n hn, List.getElem?_map, hi]; rfl
+    have hJ0 : J src R rl its names (initMissing its (readCache store R rl its names) names)
+        { col := readCache store R rl its names,
+          missing := initMissing its (readCache store R rl its names) names, store := store } := by
+      refine ⟨?_, fun _ => rfl, ?_, ?_, ?_⟩
+      · intro n hn idx i hi
+        have hc := hcell n hn idx i hi
+        cases hg : store.get? ⟨R, i, n, rl⟩ with
+        | none =>
+          right
+          simp only
+          rw [hc, hg]
+          refine ⟨rfl, ?_⟩
+          rw [initMissing_get its _ names n hn, mem_missingOf]
+          exact ⟨idx, hi, by rw [hc, hg]⟩
+        | some x =>
+          left
+          simp only
+          rw [hc, hg]
+          have := hI _ (get?_mem store _ x hg)
+          simp only at this
+          rw [this]
+          have hne := hnoit n hn
+          cases n <;> simp_all [truth]
+      · intro i hi v hv
+        simp only at hi
+        rw [initMissing_get its _ names _ htn, mem_missingOf] at hi
+        obtain ⟨idx, h1, h2⟩ := hi
+        rw [hcell _ htn idx i h1] at h2
+        have htnone : store.get? ⟨R, i, DName.t, rl⟩ = none := by simpa using h2
+        have hvnone : store.get? ⟨R, i, DName.var v, rl⟩ = none := by
+          rw [get?_none_iff] at htnone ⊢
+          intro hk
+          exact htnone (hT _ hk v rfl)
+        rw [initMissing_get its _ names _ hv, mem_missingOf]
+        exact ⟨idx, h1, by rw [hcell _ hv idx i h1, hvnone]⟩
+      · exact (foldl_set_keys _ names [] (by simp)).1
+      · intro n hn
+        rcases (foldl_set_keys _ names [] (by simp)).2 n hn with h | h
+        · exact h
+        · cases h
+    -- through the loop over the variables
+    have key := foldlM_prefix
+      (fun (pre : List (List Nat)) (t : State β) =>
+        J src R rl its names (initMissing its (readCache store R rl its names) names) t ∧
+        (∀ v ∈ pre, ∀ c ∈ v, CellOK src R rl its t.col (DName.var c)) ∧
+        ((∃ v ∈ pre, v ≠ []) → CellOK src R rl its t.col DName.t))
+      (stepVar src ofIt R rl its) (if grouped then req else req.flatten.map fun c => [c])
+      (by
+        intro pre v t t1 hv hP hstep
+        obtain ⟨hJt, hpre, htd⟩ := hP
+        have hvc : ∀ c ∈ v, DName.var c ∈ names := by
+          intro c hc
+          apply hvn
+          cases grouped with
+          | true => simp only [if_true] at hv; exact List.mem_flatten.mpr ⟨v, hv, hc⟩
+          | false =>
+            simp only [Bool.false_eq_true, ↓reduceIte] at hv
+            obtain ⟨c', hc', rfl⟩ := List.mem_map.mp hv
+            rw [List.mem_singleton.mp hc]; exact hc'
+        obtain ⟨h1, h2, h3, h4⟩ := stepVar_J src ofIt R rl its names _ t t1 v hJt hvc htn hstep
+        refine ⟨h1, ?_, ?_⟩
+        · intro w hw c hc
+          rcases List.mem_append.mp hw with hw | hw
+          · exact h3 _ (hpre w hw c hc)
+          · simp at hw; subst hw; exact h2 c hc
+        · rintro ⟨w, hw, hwne⟩
+          rcases List.mem_append.mp hw with hw | hw
+          · exact h3 _ (htd ⟨w, hw, hwne⟩)
+          · simp at hw; subst hw; exact h4 hwne)
+      [] _ st (fun _ h => h) ⟨hJ0, by simp, by simp⟩ hst
+    obtain ⟨k1, k2, k3⟩ := key
+    simp only [List.nil_append] at k2 k3
+    refine ⟨?_, k1.nodup, k1.keys⟩
+    intro n hn
+    rw [← hnames] at hn
+    rcases List.mem_append.mp hn with hn | hn
+    · obtain ⟨c, hc, rfl⟩ := List.mem_map.mp hn
+      cases grouped with
+      | true =>
+        obtain ⟨v, hv, hcv⟩ := List.mem_flatten.mp hc
+        exact k2 v (by simpa using hv) c hcv
+      | false =>
+        exact k2 [c] (by simp only [Bool.false_eq_true, ↓reduceIte]; exact List.mem_map.mpr ⟨c, hc, rfl⟩) c
+          (List.mem_singleton.mpr rfl)
+    · simp at hn; subst hn
+      apply k3
+      obtain ⟨c, hc⟩ := List.exists_mem_of_ne_nil _ hreq
+      cases grouped with
+      | true =>
+        obtain ⟨v, hv, hcv⟩ := List.mem_flatten.mp hc
+        exact ⟨v, by simpa using hv, List.ne_nil_of_mem hcv⟩
+      | false =>
+        exact ⟨[c], by simp only [Bool.false_eq_true, ↓reduceIte]; exact List.mem_map.mpr ⟨c, hc, rfl⟩, by simp⟩
+
+end cols
+
+
+/-! ### a file that holds a variable also holds the time -/
+
+theorem storeT_set3 {β : Type} (st : Store β) (R iit rl : Nat) (av : DName) (x y z : β) (hT : StoreT st) :
+    StoreT (((st.set ⟨R, iit, av, rl⟩ x).set ⟨R, iit, DName.it, rl⟩ y).set ⟨R, iit, DName.t, rl⟩ z) := by
+  intro k hk v hv
+  have hk' : k = ⟨R, iit, av, rl⟩ ∨ k ∈ st.map Prod.fst := by
+    rcases (mem_keys_set _ _ _ _).mp hk with rfl | hk
+    · cases hv
+    · rcases (mem_keys_set _ _ _ _).mp hk with rfl | hk
+      · cases hv
+      · exact (mem_keys_set _ _ _ _).mp hk
+  apply (mem_keys_set _ _ _ _).mpr
+  rcases hk' with rfl | hk'
+  · exact Or.inl rfl
+  · right
+    apply (mem_keys_set _ _ _ _).mpr; right
+    apply (mem_keys_set _ _ _ _).mpr; right
+    exact hT k hk' v hv
+
+theorem savePres_storeT {β : Type} (src : DKey → β) (ofIt : Nat → β) : SavePres src ofIt (StoreT (β := β)) := by
+  intro R rl tmpIts av _ itsSave store store' hT h
+  unfold saveData at h
+  refine foldlM_inv StoreT _ ?_ _ store store' hT h
+  intro st iit st' hst hstep
+  split at hstep
+  · cases hstep
+  · split at hstep
+    · cases hstep; exact storeT_set3 st R iit rl av _ _ _ hst
+    · cases hstep
+
+/-- the invariant carried through a history: content and the t-companion -/
+def GInv {β : Type} (src : DKey → β) (ofIt : Nat → β) (store : Store β) : Prop :=
+  Inv src ofIt store ∧ StoreT store
+
+theorem savePres_ginv {β : Type} (src : DKey → β) (ofIt : Nat → β) : SavePres src ofIt (GInv src ofIt) :=
+  fun R rl tmpIts av hav itsSave store store' hG h =>
+    ⟨savePres_inv src ofIt R rl tmpIts av hav itsSave store store' hG.1 h,
+     savePres_storeT src ofIt R rl tmpIts av hav itsSave store store' hG.2 h⟩
+
+theorem readData_ginv {β : Type} (src : DKey → β) (ofIt : Nat → β) (avail : List Avail) (grouped : Bool)
+    (req : List (List Nat)) (its : List Nat) (rl : Nat) (restart : Option Nat) (split : Bool)
+    (store : Store β) (rows : List (Row β)) (store' : Store β) (hG : GInv src ofIt store)
+    (h : readData src ofIt avail grouped req its rl restart split store = some (rows, store')) :
+    GInv src ofIt store' :=
+  readData_pres src ofIt _ (savePres_ginv src ofIt) avail grouped req its rl restart split store rows store' hG h
+
+theorem ginv_empty {β : Type} (src : DKey → β) (ofIt : Nat → β) : GInv src ofIt ([] : Store β) :=
+  ⟨inv_empty src ofIt, by intro k hk; cases hk⟩
+
+theorem afterCall_ginv {β : Type} (src : DKey → β) (ofIt : Nat → β) (store : Store β) (c : Call)
+    (hG : GInv src ofIt store) : GInv src ofIt (afterCall src ofIt store c) := by
+  unfold afterCall
+  split
+  · rename_i rows store' h
+    exact readData_ginv src ofIt _ _ _ _ _ _ _ store rows store' hG h
+  · exact hG
+
+/-! ### the cells returned -/
+
+/-- what one restart contributes: every column of every requested name is the source -/
+def ColsOK {β : Type} (src : DKey → β) (rl : Nat) (req : List (List Nat))
+    (d : Nat × List Nat × Dict DName (List (Option β))) : Prop :=
+  (∀ n ∈ req.flatten.map DName.var ++ [DName.t], CellOK src d.1 rl d.2.1 d.2.2 n) ∧
+    (d.2.2.map Prod.fst).Nodup ∧ ∀ n ∈ d.2.2.map Prod.fst, n ∈ req.flatten.map DName.var ++ [DName.t]
+
+theorem readDirect_ok {β : Type} (src : DKey → β) (rl : Nat) (req : List (List Nat)) (R : Nat) (its : List Nat) :
+    ColsOK src rl req (R, its, readDirect src req R rl its) := by
+  unfold ColsOK readDirect
+  refine ⟨?_, (foldl_set_keys _ _ [] (by simp)).1, ?_⟩
+  · intro n hn idx i hi
+    simp only [getCol, foldl_set_get, hn, if_true, Option.getD_some, List.getElem?_map, hi, Option.map_some]
+  · intro n hn
+    rcases (foldl_set_keys _ _ [] (by simp)).2 n hn with h | h
+    · exact h
+    · cases h
+
+theorem readAll_cells {β : Type} (src : DKey → β) (ofIt : Nat → β) (grouped split : Bool) (req : List (List Nat))
+    (hreq : req.flatten ≠ []) (rl : Nat) (todo : List (Nat × List Nat)) (store : Store β)
+    (out : List (Nat × List Nat × Dict DName (List (Option β)))) (store' : Store β)
+    (hG : GInv src ofIt store) (h : readAll src ofIt grouped split req rl todo store = some (out, store')) :
+    ∀ d ∈ out, ColsOK src rl req d := by
+  induction todo generalizing store out store' with
+  | nil => simp [readAll] at h; intro d hd; rw [h.1] at hd; cases hd
+  | cons rt rest ih =>
+    obtain ⟨R, td⟩ := rt
+    simp only [readAll] at h
+    split at h
+    · exact ih store out store' hG h
+    · split at h
+      · cases h
+      · rename_i cols store1 hr
+        split at h
+        · cases h
+        · rename_i out' store2 hrest
+          cases h
+          cases split with
+          | true =>
+            simp only [if_true] at hr
+            have hG1 : GInv src ofIt store1 :=
+              readRestart_pres src ofIt _ (savePres_ginv src ofIt) grouped req store R rl td cols store1 hG hr
+            intro d hd
+            rcases List.mem_cons.mp hd with rfl | hd
+            · exact readRestart_cells src ofIt R rl td grouped req store cols store1 hG.1 hG.2 hreq hr
+            · exact ih store1 out' store' hG1 hrest d hd
+          | false =>
+            simp at hr
+            obtain ⟨rfl, rfl⟩ := hr
+            intro d hd
+            rcases List.mem_cons.mp hd with rfl | hd
+            · exact readDirect_ok src rl req R td
+            · exact ih store out' store' hG hrest d hd
+
+/-- **every returned cell is the source** -/
+theorem readData_cells {β : Type} (src : DKey → β) (ofIt : Nat → β) (avail : List Avail) (grouped : Bool)
+    (req : List (List Nat)) (hreq : req.flatten ≠ []) (its : List Nat) (rl : Nat) (restart : Option Nat)
+    (split : Bool) (store : Store β) (rows : List (Row β)) (store' : Store β) (hG : GInv src ofIt store)
+    (h : readData src ofIt avail grouped req its rl restart split store = some (rows, store')) :
+    ∀ row ∈ rows, (∀ c ∈ row.2.2, c.2 = some (src ⟨row.2.1, row.1, c.1, rl⟩)) ∧
+      (∀ n ∈ req.flatten.map DName.var ++ [DName.t], n ∈ row.2.2.map Prod.fst) := by
+  unfold readData at h
+  simp only at h
+  split at h
+  · cases h
+  · cases h
+  · rename_i datar store1 _ hr
+    cases h
+    have hcells := readAll_cells src ofIt grouped split req hreq rl _ store datar store' hG hr
+    intro row hrow
+    unfold flattenRows at hrow
+    obtain ⟨iit, _, hrow⟩ := List.mem_flatMap.mp hrow
+    obtain ⟨d, hd, hrow⟩ := List.mem_filterMap.mp hrow
+    split at hrow
+    · rename_i hmem
+      simp only [Option.some.injEq] at hrow
+      subst hrow
+      obtain ⟨hok, hnd, hkeys⟩ := hcells d hd
+      have hidx := nearest_exact_lemma d.2.1 iit hmem
+      constructor
+      · intro c hc
+        obtain ⟨e, he, rfl⟩ := List.mem_map.mp hc
+        have hn := hkeys e.1 (List.mem_map.mpr ⟨e, he, rfl⟩)
+        have hget : getCol d.2.2 e.1 = e.2 := by
+          simp [getCol, get?_of_mem hnd (show (e.1, e.2) ∈ d.2.2 from he)]
+        have := hok e.1 hn _ iit hidx
+        rw [hget] at this
+        simp only [this, Option.getD_some]
+      · intro n hn
+        simp only [List.map_map]
+        -- every requested name is a column
+        have : n ∈ d.2.2.map Prod.fst := by
+          have h0 := hok n hn _ iit hidx
+          by_contra hcon
+          have : getCol d.2.2 n = [] := by
+            simp [getCol, (get?_none_iff d.2.2 n).mpr hcon]
+          rw [this] at h0; simp at h0
+        obtain ⟨e, he, rfl⟩ := List.mem_map.mp this
+        exact List.mem_map.mpr ⟨e, he, rfl⟩
+    · cases hrow
+
+
+/-! ### order of the rows -/
+
+theorem readAll_rows {β : Type} (src : DKey → β) (ofIt : Nat → β) (grouped split : Bool) (req : List (List Nat))
+    (rl : Nat) (todo : List (Nat × List Nat)) (store : Store β)
+    (out : List (Nat × List Nat × Dict DName (List (Option β)))) (store' : Store β)
+    (h : readAll src ofIt grouped split req rl todo store = some (out, store')) (iit : Nat) :
+    out.filterMap (fun d => if iit ∈ d.2.1 then some (iit, d.1) else none)
+      = todo.filterMap (fun rt => if iit ∈ rt.2 then some (iit, rt.1) else none) := by
+  induction todo generalizing store out store' with
+  | nil => simp [readAll] at h; rw [h.1]; rfl
+  | cons rt rest ih =>
+    obtain ⟨R, td⟩ := rt
+    simp only [readAll] at h
+    split at h
+    · rename_i hnil
+      rw [ih store out store' h, List.filterMap_cons]
+      simp [hnil]
+    · split at h
+      · cases h
+      · rename_i cols store1 hr
+        split at h
+        · cases h
+        · rename_i out' store2 hrest
+          cases h
+          simp only [List.filterMap_cons]
+          rw [ih store1 out' store' hrest]
+
+/-- **T3** the rows are, for each requested iteration in sorted order, one row
+per restart that was asked to read it -/
+theorem readData_rows {β : Type} (src : DKey → β) (ofIt : Nat → β) (avail : List Avail) (grouped : Bool)
+    (req : List (List Nat)) (its : List Nat) (rl : Nat) (split : Bool) (store : Store β)
+    (rows : List (Row β)) (store' : Store β)
+    (h : readData src ofIt avail grouped req its rl none split store = some (rows, store')) :
+    rows.map (fun r => (r.1, r.2.1)) = readOrder avail its := by
+  unfold readData at h
+  simp only at h
+  split at h
+  · cases h
+  · cases h
+  · rename_i datar store1 _ hr
+    cases h
+    unfold flattenRows readOrder Chunks.flatten
+    simp only [List.map_flatMap]
+    apply List.flatMap_congr
+    intro iit _
+    rw [← readAll_rows src ofIt grouped split req rl _ store datar store' hr iit, List.map_filterMap]
+    apply List.filterMap_congr
+    intro d _
+    split <;> simp
+
+
+/-- every call of a history starting from a cache with the invariant: the
+cache after the call has the invariant and every cell the call returns is the source -/
+theorem history_ginv {β : Type} (src : DKey → β) (ofIt : Nat → β) (hist : List Call) (store : Store β)
+    (hG : GInv src ofIt store) : ∀ s ∈ cachesOf src ofIt store hist, GInv src ofIt s := by
+  induction hist generalizing store with
+  | nil => intro s hs; cases hs
+  | cons c cs ih =>
+    intro s hs
+    simp only [cachesOf] at hs
+    rcases List.mem_cons.mp hs with rfl | hs
+    · exact afterCall_ginv src ofIt store c hG
+    · exact ih _ (afterCall_ginv src ofIt store c hG) s hs
+
+/-- the cache each call of a history starts from -/
+def cachesBefore {β : Type} (src : DKey → β) (ofIt : Nat → β) (store : Store β) (hist : List Call) :
+    List (Store β × Call) :=
+  match hist with
+  | [] => []
+  | c :: cs => (store, c) :: cachesBefore src ofIt (afterCall src ofIt store c) cs
+
+theorem history_before_ginv {β : Type} (src : DKey → β) (ofIt : Nat → β) (hist : List Call) (store : Store β)
+    (hG : GInv src ofIt store) : ∀ sc ∈ cachesBefore src ofIt store hist, GInv src ofIt sc.1 := by
+  induction hist generalizing store with
+  | nil => intro s hs; cases hs
+  | cons c cs ih =>
+    intro s hs
+    simp only [cachesBefore] at hs
+    rcases List.mem_cons.mp hs with rfl | hs
+    · exact hG
+    · exact ih _ (afterCall_ginv src ofIt store c hG) s hs
 
 end AurelVerif.ReadCacheLemmas
